@@ -36,6 +36,7 @@ class QuantMixin:
         self.q_facts: Dict[int, List[QFact]] = {}     # seq term id -> facts
         self.q_alias: Dict[int, List[Any]] = {}       # seq term id -> related sequences sharing the index domain
         self.q_seqs: Dict[int, Any] = {}
+        self.quant_ctx: List[Any] = []
         self.seq_elem_type: Dict[int, str] = {}
 
     def norm_seq(self, s):
@@ -115,12 +116,26 @@ class QuantMixin:
 
     def elem(self, s, t):
         """s[t] with the read registered as an index term"""
-        v = smt.simp(s[t])
+        v = self.nth(s, t)
         self.note_index(s, t)
         self.bound_ref(v)
         et = self.seq_elem_type.get(smt.simp(s).get_id())
         if et is not None:
             self._add_axiom(z3.Implies(z3.And(t >= 0, t < z3.Length(s)), self.type_formula(v, et)))
+        return v
+
+    def nth(self, s, t):
+        """element read as a term: concrete positions of concrete sequences simplify to the element; otherwise the
+        uninterpreted elem_at(s, t), tied to seq.nth inside the bounds (keeps z3's nth_i / nth_u case split out of
+        the engine's terms)"""
+        s = smt.simp(s)
+        t = smt.simp(t)
+        direct = smt.simp(s[t])
+        if not (z3.is_app(direct) and direct.decl().kind() == z3.Z3_OP_ITE) and \
+                not (z3.is_app(direct) and direct.decl().name() in ('seq.nth_i', 'seq.nth_u', 'seq.nth')):
+            return direct
+        v = smt.elem_at(s, t)
+        self._add_axiom(z3.Implies(z3.And(t >= 0, t < z3.Length(s)), v == s[t]))
         return v
 
     # ------------------------------------------------------------------ all / any over generator expressions
@@ -164,11 +179,14 @@ class QuantMixin:
             S = self.get_seq(sv)
             n = z3.Length(S)
         snap = self.st.snapshot()
+        ctx = list(self.quant_ctx)          # range assumptions of enclosing quantifiers (nested use)
+        ctx_f = z3.And(*ctx) if ctx else z3.BoolVal(True)
 
         def P(i):
             """z3 Bool: the element predicate at index i (in the heap as it is now)"""
             cur = self.st.snapshot()
             self.st.restore(snap)
+            self.quant_ctx.append(z3.And(i >= 0, i < n))
             try:
                 def thunk():
                     pass
@@ -179,23 +197,43 @@ class QuantMixin:
                         if not self.branch(self.truthy(self.ev(c, sub))):
                             return z3.BoolVal(is_all)
                     return self.truthy(self.ev(arg.elt, sub))
-                return self.merged_truth(thunk, 'quantified element predicate', assuming=z3.And(i >= 0, i < n))
+                return self.merged_truth(thunk, 'quantified element predicate',
+                                         assuming=z3.And(i >= 0, i < n, ctx_f))
             finally:
+                self.quant_ctx.pop()
                 self.st.restore(cur)
+
+        P_slow = P
+        gen_cache: Dict[str, Any] = {}
+
+        def P(i):
+            """evaluate the predicate ONCE at a generic index and instantiate by substitution when the
+            evaluation is clean (created no fresh symbol, allocation or nested quantifier)"""
+            if 'term' not in gen_cache and 'dirty' not in gen_cache:
+                istar = z3.Const(f'i*{len(self.q_seqs)}_{self.fresh_counter}', smt.I)
+                c0, r0, q0 = self.fresh_counter, self.next_ref, sum(len(v) for v in self.q_facts.values())
+                t = P_slow(istar)
+                if (self.fresh_counter, self.next_ref, sum(len(v) for v in self.q_facts.values())) == (c0, r0, q0):
+                    gen_cache['term'], gen_cache['istar'] = t, istar
+                else:
+                    gen_cache['dirty'] = True
+            if 'term' in gen_cache:
+                return smt.simp(z3.substitute(gen_cache['term'], (gen_cache['istar'], i)))
+            return P_slow(i)
 
         b = self.fresh('q', z3.BoolSort())
         w = self.fresh('w', smt.I)
         if is_all:
             # skolemised negation:  not b  =>  a counterexample index exists
             pw = P(w)
-            self._add_axiom(z3.Implies(z3.Not(b), z3.And(w >= 0, w < n, z3.Not(pw))))
+            self._add_axiom(z3.Implies(z3.And(ctx_f, z3.Not(b)), z3.And(w >= 0, w < n, z3.Not(pw))))
             self.add_qfact(S, 'all', lambda t: self._add_axiom(
-                z3.Implies(b, z3.Implies(z3.And(t >= 0, t < n), P(t)))))
+                z3.Implies(z3.And(ctx_f, b), z3.Implies(z3.And(t >= 0, t < n), P(t)))))
         else:
             pw = P(w)
-            self._add_axiom(z3.Implies(b, z3.And(w >= 0, w < n, pw)))
+            self._add_axiom(z3.Implies(z3.And(ctx_f, b), z3.And(w >= 0, w < n, pw)))
             self.add_qfact(S, 'any', lambda t: self._add_axiom(
-                z3.Implies(z3.Not(b), z3.Implies(z3.And(t >= 0, t < n), z3.Not(P(t))))))
+                z3.Implies(z3.And(ctx_f, z3.Not(b)), z3.Implies(z3.And(t >= 0, t < n), z3.Not(P(t))))))
         self.note_index(S, w)
         return smt.simp(Val.bool(b))
 
@@ -284,6 +322,9 @@ class QuantMixin:
         """[E(x) for x in S], |S| symbolic.  Outcomes: every element evaluates (summary with lazily
         instantiated element facts) | the first raising element raises (witness index j)."""
         n = z3.Length(S)
+        pure = self.try_pure_map(e, fr, kind, S)
+        if pure is not None:
+            return pure
         if self.choose([z3.BoolVal(True), n > 0]) == 1:
             j = self.fresh('j', smt.I)
             self.assume(z3.And(j >= 0, j < n))
@@ -296,11 +337,24 @@ class QuantMixin:
         self.set_seq(out, R)
         snap_frame = fr
 
+        effectful = (not fr.is_spec) and any(isinstance(x, (ast.Call, ast.Await)) for x in ast.walk(e.elt))
+
         def inst(t):
             in_range = z3.And(t >= 0, t < n)
             if z3.is_false(smt.simp(in_range)):
                 return
-            rs = self.sub_explore(lambda: self.eval_elt(e, snap_frame, smt.simp(S[t])))
+            saved_ghost = dict(self.st.ghost)
+            if effectful:
+                # the element runs in an unknown intermediate ghost state: facts about its own result are
+                # kept, facts about the global trace are confined to a scratch copy
+                self.scratch_ghost()
+            try:
+                def thunk():
+                    self.assume(in_range)
+                    return self.eval_elt(e, snap_frame, smt.simp(S[t]))
+                rs = self.sub_explore(thunk)
+            finally:
+                self.st.ghost = saved_ghost
             rets = [r for r in rs if r[1] == 'ret']
             if not rets:
                 self._add_axiom(z3.Not(in_range))
@@ -308,10 +362,66 @@ class QuantMixin:
             # the comprehension completed, so element t did not raise: its value is one of the returning
             # sub-paths' values
             self.assume(z3.Implies(in_range, z3.Or(*[z3.And(g, R[t] == v) for g, _, v, _ in rets])))
+            for g, _, v, _ in rets:
+                self.bound_ref(v)
             if len(rets) == 1:
                 self.adopt_fresh_effects(rets[0][3])
         self.link_seqs(S, R)
         self.add_qfact(S, 'map', inst)
+        if effectful:
+            self.havoc_ghost('trace')         # the elements may have appended events
+        return out
+
+    def scratch_ghost(self) -> None:
+        n = self.fresh('scr_len', smt.I)
+        self._add_axiom(n >= 0)
+        self.st.ghost['tr_len'] = n
+        for f in self.TRACE_FIELDS:
+            self.st.ghost['tr_' + f] = self.fresh('scr_' + f, z3.ArraySort(smt.I, Val))
+
+    def try_pure_map(self, e, fr, kind: str, S):
+        """[E(x) for x in S] where E is pure, total and single-path on a generic element: the result is the
+        sequence constant determined by (E's symbolic value on the generic element, S) - two comprehensions
+        computing the same thing denote the SAME term - and element facts are instantiated by substitution"""
+        import hashlib
+        n = z3.Length(S)
+        istar = z3.Const('i*map', smt.I)
+        c0, r0 = self.fresh_counter, self.next_ref
+        q0 = sum(len(v) for v in self.q_facts.values())
+        w0 = len(self.writes)
+        g0 = dict(self.st.ghost)
+        inr = z3.And(istar >= 0, istar < n)
+
+        def thunk():
+            self.assume(inr)
+            return self.eval_elt(e, fr, self.elem(S, istar))
+        try:
+            rs = self.sub_explore(thunk)
+        except Unsupported:
+            return None
+        clean = (self.fresh_counter, self.next_ref, sum(len(v) for v in self.q_facts.values())) == (c0, r0, q0)
+        rets = [r for r in rs if r[1] == 'ret']
+        raises = [r for r in rs if r[1] == 'raise' and self.feasible(r[0])]
+        self.st.ghost = g0
+        del self.writes[w0:]
+        if not clean or raises or len(rets) != 1:
+            return None
+        guard, _, term, st_after = rets[0]
+        if not smt.simp(guard).eq(smt.simp(inr)):
+            return None
+        term = smt.simp(term)
+        key = hashlib.sha1((term.sexpr() + '|' + smt.simp(S).sexpr()).encode()).hexdigest()[:12]
+        R = z3.Const(f'M_{key}', smt.SeqV)
+        self._add_axiom(z3.Length(R) == n)
+        out = self.alloc(builtin_class('list' if kind == 'list' else 'tuple'))
+        self.set_seq(out, R)
+
+        def inst(t):
+            v = smt.simp(z3.substitute(term, (istar, t)))
+            self._add_axiom(z3.Implies(z3.And(t >= 0, t < n), z3.And(R[t] == v, smt.elem_at(R, t) == v,
+                                                                   smt.elem_at(S, t) == S[t])))
+        self.link_seqs(S, R)
+        self.add_qfact(S, 'pure-map', inst)
         return out
 
     def adopt_fresh_effects(self, st_after) -> None:
@@ -322,4 +432,82 @@ class QuantMixin:
         self.st.dct, self.st.dlen, self.st.seq = st_after.dct, st_after.dlen, st_after.seq
 
     def filter_comprehension(self, e, fr, kind: str, S):
-        self.unsupported('filtering comprehension over symbolic iterable', e)
+        """[E(x) for x in S if C(x)], |S| symbolic: R is the order-preserving image of the elements that pass.
+        pos : index in R -> index in S (strictly increasing), rank : passing index in S -> index in R.
+        All facts are instantiated at index terms (no quantifier reaches the solver):
+          q in [0,|R|)  =>  0 <= pos(q) < |S|  and  C(S[pos q])  and  R[q] = E(S[pos q])
+          p in [0,|S|) and C(S[p])  =>  0 <= rank(p) < |R|  and  pos(rank p) = p
+          q < q'  =>  pos(q) < pos(q')
+        C and E must be pure and total on the elements (an element that can raise is unsupported)."""
+        gen = e.generators[0]
+        n = z3.Length(S)
+        R = self.fresh('F', smt.SeqV)
+        m = z3.Length(R)
+        self.fresh_counter += 1
+        pos = z3.Function(f'pos!{self.fresh_counter}', smt.I, smt.I)
+        rank = z3.Function(f'rank!{self.fresh_counter}', smt.I, smt.I)
+        self._add_axiom(m <= n)
+        out = self.alloc(builtin_class('list' if kind == 'list' else 'tuple'))
+        self.set_seq(out, R)
+        snap_frame = fr
+        snap = self.st.snapshot()
+
+        def cond_and_value(x):
+            """(z3 Bool passes, Val value) for element x, evaluated in the state at comprehension time"""
+            cur = self.st.snapshot()
+            self.st.restore(snap)
+            try:
+                def thunk():
+                    sub = Frame(snap_frame.func, snap_frame.module, parent=snap_frame, cls=snap_frame.cls)
+                    sub.is_spec = snap_frame.is_spec
+                    self.assign(gen.target, x, sub)
+                    ok = z3.BoolVal(True)
+                    for c in gen.ifs:
+                        ok = z3.And(ok, self.truthy(self.ev(c, sub)))
+                    return self.mk_tuple([smt.simp(Val.bool(ok)), self.ev(e.elt, sub)])
+                rs = self.sub_explore(thunk, pure=True)
+            finally:
+                self.st.restore(cur)
+            conds, vals = [], []
+            for guard, kind_, v, st_after in rs:
+                if kind_ == 'raise':
+                    if self.feasible(guard):
+                        raise Unsupported('element of a filtering comprehension can raise')
+                    continue
+                sq = smt.simp(z3.Select(st_after.seq, Val.r(v)))
+                conds.append((guard, smt.simp(Val.b(sq[0]))))
+                vals.append((guard, smt.simp(sq[1])))
+            passes = z3.Or(*[z3.And(g, c) for g, c in conds]) if conds else z3.BoolVal(False)
+            return smt.simp(passes), vals
+
+        r_terms: List[Any] = []
+
+        def inst_R(q):
+            inr = z3.And(q >= 0, q < m)
+            p = pos(q)
+            self._add_axiom(z3.Implies(inr, z3.And(p >= 0, p < n)))
+            x = smt.simp(S[p])
+            passes, vals = cond_and_value(x)
+            self._add_axiom(z3.Implies(inr, passes))
+            if vals:
+                self._add_axiom(z3.Implies(inr, z3.Or(*[z3.And(g, R[q] == v) for g, v in vals])))
+            for q2 in r_terms:
+                self._add_axiom(z3.And(z3.Implies(z3.And(q < q2, q >= 0, q2 < m), pos(q) < pos(q2)),
+                                       z3.Implies(z3.And(q2 < q, q2 >= 0, q < m), pos(q2) < pos(q))))
+            r_terms.append(q)
+            self._add_axiom(z3.Implies(inr, rank(p) == q))
+            self.note_index(S, p)
+
+        def inst_S(p):
+            inr = z3.And(p >= 0, p < n)
+            x = smt.simp(S[p])
+            passes, _ = cond_and_value(x)
+            rk = rank(p)
+            self._add_axiom(z3.Implies(z3.And(inr, passes), z3.And(rk >= 0, rk < m, pos(rk) == p)))
+            if not any(t.eq(smt.simp(rk)) for t in r_terms):
+                self.note_index(R, rk)
+
+        self.add_qfact(R, 'filter-R', inst_R)
+        self.add_qfact(S, 'filter-S', inst_S)
+        self.note_index(R, z3.IntVal(0))
+        return out
